@@ -61,7 +61,18 @@ def gen_graph(rnd, n, outcome):
         gi = 0
         for p in plan:
             if p == 'dep':
-                t['segs'].append(('dep', groups[gi]))
+                if rnd.random() < 0.3:
+                    # a second process of the script (a progress meter, a compiler in the background) writes lines to the same
+                    # log while the redo-ifchange the script started writes its records into it
+                    # (it writes until the redo-ifchange has returned; how many lines that were is left in a file)
+                    cap = 20000
+                    first = seq[0]
+                    seq[0] += cap
+                    k = sum(1 for s_ in t['segs'] if s_[0] == 'depnoise')
+                    t['segs'].append(('depnoise', groups[gi], first, cap, k))
+                    t['lines'].append(('noise', first, k))
+                else:
+                    t['segs'].append(('dep', groups[gi]))
                 gi += 1
                 continue
             kind = rnd.choices(['lines', 'partial', 'long', 'look', 'empty', 'burst'], [6, 3, 1, 2, 1, 1])[0]
@@ -127,6 +138,12 @@ def script(nm, t):
     for seg in t['segs']:
         if seg[0] == 'dep':
             out.append('redo-ifchange %s' % ' '.join(seg[1]))
+        elif seg[0] == 'depnoise':
+            out.append(': > "$1.ngo%d"' % seg[4])
+            out.append('( i=%d; while [ -e "$1.ngo%d" ] && [ $i -lt %d ]; do echo "%s#$i n" >&2; i=$((i+1)); done; echo $i > "$1.ncnt%d" ) &'
+                       % (seg[2], seg[4], seg[2] + seg[3], nm, seg[4]))
+            out.append('rc=0; redo-ifchange %s || rc=$?' % ' '.join(seg[1]))
+            out.append('rm -f "$1.ngo%d"; wait; [ $rc = 0 ] || exit $rc' % seg[4])
         elif seg[0] == 'lines':
             for l in seg[1]:
                 out.append("printf '%%s\\n' %s >&2" % sh_quote(l))
@@ -331,6 +348,22 @@ def case(item):
         complete = {nm: rc for nm, rc in ran.items() if nm in started and (rc == 0 or tg[nm]['rc'] == rc) and _complete(tg, nm, ran)}
         if (r.rc == 0) != (outcome == 'ok'):
             return dict(verdict='inconclusive', why='unexpected exit status %s for outcome %s: %s' % (r.rc, outcome, r.err[-200:]), sample=dict(item=list(item)))
+        for nm in list(tg):
+            if any(isinstance(l, tuple) for l in tg[nm]['lines']):
+                new, okn = [], True
+                for l in tg[nm]['lines']:
+                    if not isinstance(l, tuple):
+                        new.append(l)
+                        continue
+                    b = common.read_file(os.path.join(pj.top, '%s.ncnt%d' % (nm, l[2])))
+                    if b is None or not b.strip().isdigit():
+                        okn = False
+                        continue
+                    new += ['%s#%d n' % (nm, i) for i in range(l[1], int(b))]
+                    obs['concurrent_writer_lines'] = obs.get('concurrent_writer_lines', 0) + int(b) - l[1]
+                tg[nm]['lines'] = new
+                if not okn:
+                    complete.pop(nm, None)
         per, recs, problems = attribute(r.err)
         obs['live_lines_attributed'] = sum(len(v) for v in per.values())
         obs['records_seen'] = len(recs)
@@ -378,7 +411,7 @@ def _complete(tg, nm, ran):
     for seg in tg[nm]['segs']:
         if seg[0] == 'redo2' and ran.get(seg[1], 0) != 0:
             return False
-        if seg[0] == 'dep':
+        if seg[0] in ('dep', 'depnoise'):
             for c in seg[1]:
                 if ran.get(c, 0) != 0 or not _complete(tg, c, ran):
                     return False
@@ -573,7 +606,7 @@ def dispatch(item):
 RULE = ('generated graphs of 3-25 writer scripts (nested and shared children) at -j1..8 via redo and redo-ifchange, raw log mode: every script '
         'writes id-ed lines (<target>#<seq> payload) to stderr in segments interleaved with its redo-ifchange calls: plain lines (0-200 bytes, '
         'unicode, tabs), a line written in 2-5 pieces 20-120 ms apart, lines of 5 000-100 000 bytes, look-alikes of structured records that do '
-        'not parse, empty lines, bursts of 50-200 lines, an unterminated last line, a child that the root force-rebuilds twice in a row and whose last lines come late; one script may fail or be ended by a signal (SIGKILL/SIGTERM/SIGSEGV, recorded as a negative status). Monitor: the live stderr of the '
+        'not parse, empty lines, bursts of 50-200 lines, a background process of the script writing lines for as long as a redo-ifchange of the same script runs and writes its records into the same log, an unterminated last line, a child that the root force-rebuilds twice in a row and whose last lines come late; one script may fail or be ended by a signal (SIGKILL/SIGTERM/SIGSEGV, recorded as a negative status). Monitor: the live stderr of the '
         'top-level command and the output of `redo-log -r --no-pretty` (from the project top and from a sub-directory) are attributed to '
         'targets by the do/resumed/done records (a record may be glued to an unterminated line); for every script that ran to its end the '
         'attributed lines must equal the written ones exactly (after trailing-whitespace stripping), no id-ed line may appear under another '
